@@ -28,7 +28,7 @@ CLAUSES = {
           "before the PUBCOMP is due) but the connection was closed",
     "65": "C06: a mismatching acknowledgement completed a send successfully",
     "66": "C06: a send was refused with PacketIdInUse although no outstanding packet carries that id",
-    "71": "C07: the connection has ended and every task was polled again, but a send / readiness future is still "
+    "71": "C07/C13: the connection has ended and every task was polled again, but a send / readiness future is still "
           "pending (it must resolve with Disconnected)",
     "81": "C08: a packet was written while a streamed PUBLISH payload was still owed (interleaved into the payload)",
     "82": "C06/C08: a send returned PacketIdInUse / an encoder error / StreamingCancelled but its packet was written",
@@ -94,6 +94,8 @@ def track(ver, case, obs, want):
             return "0,1,%d" % i
         code = op[0] if op else 0
         t = op[1] if len(op) > 1 else None
+        if code == 19:
+            code = 1                           # a spawned send: started and polled at once
         if code in (1, 16) and t is not None and t not in kind_of and len(op) > 2 and t in tasks and t not in prev_tasks:
             # the op that created task t (a start / create with a task number in use is a no-op)
             kind_of[t] = op[2]
@@ -203,9 +205,9 @@ def track(ver, case, obs, want):
                 # the connection must be closed once the mismatching ack has been processed
                 if mismatch_here:
                     return "0,62,%d" % i
-            if good_peer and prev_open and not is_open and code not in (10, 11, 14, 13, 15) and not mismatch_here:
+            if good_peer and prev_open and not is_open and code not in (10, 11, 14, 13, 15, 18) and not mismatch_here:
                 # closed although the peer behaved (local close ops and stream aborts excluded)
-                if not any(o and o[0] in (10, 11, 13, 14, 15) for o in ops[:i + 1]):
+                if not any(o and o[0] in (10, 11, 13, 14, 15, 18) for o in ops[:i + 1]):
                     return "0,64,%d" % i
         if 5 in want and is_open and n_inflight > cap and code != 9 \
                 and any(tag in (PUB1, PUB2, SUB, UNSUB) for (tag, _) in wire):
@@ -260,7 +262,7 @@ def track(ver, case, obs, want):
                    and heads[k] is not None and any(tag in (PUB1, PUB2) for (tag, _) in heads[k][2])
                    for k in range(j)):
                 return "0,135,%d" % j
-    if 7 in want and not prev_open:
+    if (7 in want or 13 in want) and not prev_open:
         polled, pend = G.idle_suffix(case, obs)
         if pend and set(pend) <= polled:
             return "0,71,%d" % (len(ops) - 1)
